@@ -212,15 +212,7 @@ class CF(object):
 
 def make_leaf(ctx, dom, ran, want=None):
     """Create a fresh pool member dom -> ran (ran: int or 'F').  want in (None,'lin','nonlin','func')."""
-    import numpy as np
-    import odl
     r = ctx.rng
-    K = _classes()
-    i = ctx.nleaf
-    ctx.nleaf += 1
-    sp = ctx.space(dom)
-    p = ctx.pre()
-    dt = complex if ctx.cplx else float
     style = r.choice(['oop', 'ip', 'both'])
     if ran == 'F':
         kinds = ['flin', 'fquad', 'l2sq', 'ip', 'nquad'] + ([] if ctx.cplx else ['fl1'])
@@ -229,27 +221,55 @@ def make_leaf(ctx, dom, ran, want=None):
         if want == 'lin':
             kinds = ['flin', 'ip']
         k = r.choice(kinds)
-        w = ctx.ivec(dom, -2, 2)
+        if k == 'l2sq' and ctx.cplx:
+            k = 'fquad'
+        spec = {'kind': k, 'dom': dom, 'ran': 'F', 'style': style, 'w': ctx.ivec(dom, -2, 2),
+                'b': ctx.ivec(dom, -1, 1), 'c': ctx.num()}
+    else:
+        kinds = ['mat', 'aff']
+        if dom == ran:
+            kinds += ['scal', 'ident', 'zero', 'mulv', 'sq', 'pow2', 'cube'] + ([] if ctx.cplx else ['abs'])
+        if want == 'lin':
+            kinds = [k for k in kinds if k in ('mat', 'scal', 'ident', 'zero', 'mulv')]
+        if want == 'nonlin':
+            kinds = [k for k in kinds if k in ('aff', 'sq', 'pow2', 'cube', 'abs')]
+        k = r.choice(kinds)
+        spec = {'kind': k, 'dom': dom, 'ran': ran, 'style': style,
+                'M': [ctx.ivec(dom, -2, 2) for _ in range(ran)], 'b': ctx.ivec(ran, -2, 2),
+                'v': ctx.ivec(dom), 'c': ctx.num()}
+    return leaf_from_spec(ctx, spec)
+
+
+def leaf_from_spec(ctx, spec):
+    """Deterministically build the odl object + Coq term + exact reference function of a leaf spec."""
+    import numpy as np
+    import odl
+    K = _classes()
+    i = ctx.nleaf
+    ctx.nleaf += 1
+    k, dom, ran, style = spec['kind'], spec['dom'], spec['ran'], spec['style']
+    sp = ctx.space(dom)
+    p = ctx.pre()
+    dt = complex if ctx.cplx else float
+    if ran == 'F':
+        w = spec['w']
         fw = [fr(a) for a in w]
         if k == 'flin':
             op = K['LinFunc'](sp, np.array(w, dtype=dt))
             lf = Leaf(op, '(%sFLin %d %s)' % (p, i, ctx.qs(w)), dom, 'F', True, True,
                       lambda x: [vsum([a * b for a, b in zip(fw, x)])], k)
         elif k == 'ip':
-            if ctx.cplx:       # InnerProductOperator on cn conjugates: use the bilinear custom class instead
-                w = [complex(a).conjugate() for a in w]
-            op = odl.InnerProductOperator(sp.element(w))
-            lf = Leaf(op, '(%sIP %d %s)' % (p, i, ctx.qs([complex(a).conjugate() if ctx.cplx else a for a in w])),
-                      dom, 'F', True, False,
-                      (lambda fw2: (lambda x: [vsum([a * b for a, b in zip(fw2, x)])]))(
-                          [fr(complex(a).conjugate() if ctx.cplx else a) for a in w]), k)
+            # InnerProductOperator(y)(x) = <x, y> = sum x_i conj(y_i): use y = conj(w)
+            y = [complex(a).conjugate() for a in w] if ctx.cplx else w
+            op = odl.InnerProductOperator(sp.element(y))
+            lf = Leaf(op, '(%sIP %d %s)' % (p, i, ctx.qs(w)), dom, 'F', True, False,
+                      lambda x: [vsum([a * b for a, b in zip(fw, x)])], k)
         elif k in ('fquad', 'l2sq'):
-            if k == 'l2sq' and not ctx.cplx:
+            if k == 'l2sq':
                 w, b, c = [1.0] * dom, [0.0] * dom, 0.0
                 op = odl.solvers.L2NormSquared(sp)
             else:
-                k = 'fquad'
-                b, c = ctx.ivec(dom, -1, 1), ctx.num()
+                b, c = spec['b'], spec['c']
                 op = K['QuadFunc'](sp, np.array(w, dtype=dt), np.array(b, dtype=dt), c)
             fw, fb, fc = [fr(a) for a in w], [fr(a) for a in b], fr(c)
             lf = Leaf(op, '(%sFQuad %d %s %s %s)' % (p, i, ctx.qs(w), ctx.qs(b), ctx.q(c)), dom, 'F', False, True,
@@ -259,38 +279,30 @@ def make_leaf(ctx, dom, ran, want=None):
             lf = Leaf(op, '(%sFL1 %d %d)' % (p, i, dom), dom, 'F', False, True,
                       lambda x: [vsum([u.absr() for u in x])], k)
         else:
-            c = ctx.num()
+            c = spec['c']
             op = K['NQuadOp'](sp, np.array(w, dtype=dt), c)
             fc = fr(c)
             lf = Leaf(op, '(%sNQuad %d %s %s)' % (p, i, ctx.qs(w), ctx.q(c)), dom, 'F', False, False,
                       lambda x: [vsum([a * u * u for a, u in zip(fw, x)]) + fc], k)
+        lf.spec, lf.index = spec, i
         ctx.leaves.append(lf)
         return lf
     rsp = ctx.space(ran)
-    kinds = ['mat', 'aff']
-    if dom == ran:
-        kinds += ['scal', 'ident', 'zero', 'mulv', 'sq', 'pow2', 'cube'] + ([] if ctx.cplx else ['abs'])
-    if want == 'lin':
-        kinds = [k for k in kinds if k in ('mat', 'scal', 'ident', 'zero', 'mulv')]
-    if want == 'nonlin':
-        kinds = [k for k in kinds if k in ('aff', 'sq', 'pow2', 'cube', 'abs')]
-    k = r.choice(kinds)
     if k in ('mat', 'scal', 'ident', 'zero', 'mulv', 'aff'):
+        c, v = spec['c'], spec['v']
         if k == 'mat' or k == 'aff':
-            M = [ctx.ivec(dom, -2, 2) for _ in range(ran)]
+            M = spec['M']
         elif k == 'scal':
-            c = ctx.num()
             M = [[c if a == b else 0 for b in range(dom)] for a in range(dom)]
         elif k == 'ident':
             M = [[1 if a == b else 0 for b in range(dom)] for a in range(dom)]
         elif k == 'zero':
             M = [[0] * dom for _ in range(dom)]
         else:
-            v = ctx.ivec(dom)
             M = [[v[a] if a == b else 0 for b in range(dom)] for a in range(dom)]
         fM = [[fr(a) for a in row] for row in M]
         if k == 'aff':
-            b = ctx.ivec(ran, -2, 2)
+            b = spec['b']
             fb = [fr(a) for a in b]
             op = K['aff_' + style](sp, rsp, np.array(M, dtype=dt), np.array(b, dtype=dt))
             lf = Leaf(op, '(%sAff %d %d %s %s)' % (p, i, dom, ctx.qss(M), ctx.qs(b)), dom, ran, False, False,
@@ -309,7 +321,7 @@ def make_leaf(ctx, dom, ran, want=None):
             lf = Leaf(op, '(%sMat %d %d %s)' % (p, i, dom, ctx.qss(M)), dom, ran, True, False,
                       lambda x: [vsum([a * u for a, u in zip(row, x)]) for row in fM], k)
     elif k in ('sq', 'pow2'):
-        b = ctx.ivec(dom, -2, 2) if k == 'sq' else [0] * dom
+        b = spec['b'] if k == 'sq' else [0] * dom
         fb = [fr(a) for a in b]
         op = (K['sq_' + style](sp, np.array(b, dtype=dt)) if k == 'sq' else odl.PowerOperator(sp, 2))
         lf = Leaf(op, '(%sSq %d %d %s)' % (p, i, dom, ctx.qs(b)), dom, ran, False, False,
@@ -320,8 +332,37 @@ def make_leaf(ctx, dom, ran, want=None):
     else:
         op = odl.ufunc_ops.absolute(sp)
         lf = Leaf(op, '(%sAbs %d %d)' % (p, i, dom), dom, ran, False, False, lambda x: [u.absr() for u in x], k)
+    lf.spec, lf.index = spec, i
     ctx.leaves.append(lf)
     return lf
+
+
+def freeze(t):
+    """AST -> pure-Python literal (leaves become ('leaf', index-in-creation-order, spec))."""
+    k = t[0]
+    if k == 'leaf':
+        return ('leaf', t[1].index, t[1].spec)
+    if k in ('const', 'zerof'):
+        return t
+    if k in ('add', 'sub', 'mul', 'matmul', 'ptw'):
+        return (k, freeze(t[1]), freeze(t[2]))
+    return (k, freeze(t[1])) + tuple(t[2:])
+
+
+def thaw(ctx, ft, made=None):
+    """Inverse of freeze: rebuild the leaves (shared ones once) inside ctx."""
+    made = {} if made is None else made
+    k = ft[0]
+    if k == 'leaf':
+        if ft[1] not in made:
+            made[ft[1]] = leaf_from_spec(ctx, ft[2])
+        return ('leaf', made[ft[1]])
+    if k in ('const', 'zerof'):
+        return ft
+    if k in ('add', 'sub', 'mul', 'matmul', 'ptw'):
+        a = thaw(ctx, ft[1], made)
+        return (k, a, thaw(ctx, ft[2], made))
+    return (k, thaw(ctx, ft[1], made)) + tuple(ft[2:])
 
 
 def vsum(xs):
@@ -753,8 +794,332 @@ def correspondence(rng, tier):
     return [cs]
 
 
+# ------------------------------------------------------------------- probes
+def _children(t):
+    k = t[0]
+    if k in ('leaf', 'const', 'zerof'):
+        return []
+    if k in ('add', 'sub', 'mul', 'matmul', 'ptw'):
+        return [t[1], t[2]]
+    return [t[1]]
+
+
+def _close(ctx, got, want, exact):
+    """got: python numbers; want: list of CF."""
+    if len(got) != len(want):
+        return False
+    for g, w in zip(got, want):
+        g = complex(g)
+        if exact:
+            if fr(g).re != w.re or fr(g).im != w.im:
+                return False
+        else:
+            wc = w.c()
+            if abs(g - wc) > 1e-9 * (1 + abs(wc)):
+                return False
+    return True
+
+
+def oracle_node(ctx, t, xs):
+    """The property evaluated on ONE tree with the reference interpreter.  None when it holds,
+    else (kind, detail)."""
+    import numpy as np
+    try:
+        d, r, lin = ref_type(t)
+        typed = True
+    except RefErr:
+        typed = False
+    try:
+        o = py_build(ctx, t)
+        err = None
+    except ZeroDivisionError:
+        err = 'ZeroDivisionError'
+    except TypeError:
+        err = 'TypeError'
+    except Exception as e:   # noqa
+        err = type(e).__name__
+    if not typed:
+        if err in ('TypeError', 'ZeroDivisionError'):
+            return None
+        return ('accepts-ill-typed', 'built %s' % (type(o).__name__ if err is None else err))
+    if err is not None:
+        return ('rejects-well-typed', err)
+    _, dd = sp_term(ctx, o.domain)
+    _, rr = sp_term(ctx, o.range)
+    if dd != d or rr != r:
+        return ('domain-range', 'implied %s->%s, built %s->%s' % (d, r, dd, rr))
+    if lin and not o.is_linear:
+        return ('flag-not-linear', 'implied linear, is_linear=False')
+    for x in xs:
+        if len(x) != d:
+            continue
+        track = [Fraction(0), True]
+        want = ref_eval(t, [fr(a) for a in x], track)
+        exact = track[0] <= MAXMAG and track[1]
+        xe = o.domain.element(x)
+        xcopy = xe.copy()
+        got = flat(ctx, o(xe))
+        if not _close(ctx, got, want, exact):
+            return ('value', 'x=%r got %r expected %r' % (x, got, [w.c() for w in want]))
+        if rr != 'F':
+            buf = o.range.element(np.full(rr, np.nan))
+            res = o(xe, out=buf)
+            if res is not buf or not _close(ctx, flat(ctx, buf), want, exact):
+                return ('value-inplace', 'x=%r got %r expected %r' % (x, flat(ctx, buf), [w.c() for w in want]))
+        if flat(ctx, xe) != flat(ctx, xcopy):
+            return ('mutates-x', 'x=%r became %r' % (x, flat(ctx, xe)))
+    if o.is_linear and len(xs) >= 2 and len(xs[0]) == d and len(xs[1]) == d:
+        a = fr(ctx.num(small=True))
+        x1, x2 = [fr(u) for u in xs[0]], [fr(u) for u in xs[1]]
+        lhs = ref_eval(t, [a * u + v for u, v in zip(x1, x2)])
+        rhs = [a * u + v for u, v in zip(ref_eval(t, x1), ref_eval(t, x2))]
+        if any(l.re != q.re or l.im != q.im for l, q in zip(lhs, rhs)):
+            return ('flag-linear-but-not', 'is_linear=True but the table value is not linear')
+    return None
+
+
+def oracle_min(ctx, t, xs):
+    """Smallest failing subtree (children first)."""
+    for c in _children(t):
+        try:
+            d, _, _ = ref_type(c)
+        except RefErr:
+            d = None
+        cx = xs if d is None else [ctx.ivec(d, -2, 2) for _ in range(2)]
+        f = oracle_min(ctx, c, cx)
+        if f is not None:
+            return f
+    res = oracle_node(ctx, t, xs)
+    return None if res is None else (t, xs, res)
+
+
+def _key(ctx, t, res):
+    kind = res[0]
+    k = t[0]
+    opnd = ''
+    if _children(t):
+        try:
+            a = py_build(ctx, t[1])
+            from odl.solvers.functional.functional import Functional
+            import odl
+            opnd = type(a).__name__
+            fieldran = isinstance(a.range, odl.set.sets.Field)
+            if kind == 'rejects-well-typed' and k in ('addc', 'cadd', 'subc', 'csub') and fieldran \
+                    and not isinstance(a, Functional):
+                return 'add-scalar-to-field-valued-operator-raises'
+            if kind == 'flag-not-linear' and k in ('mulv', 'matmulv') and isinstance(a, Functional):
+                return 'flag-FunctionalRightVectorMult-drops-linear'
+            if opnd.startswith(('AffOp', 'SqOp', 'LinFunc', 'QuadFunc', 'NQuadOp')) or a in [l.op for l in ctx.leaves]:
+                opnd = 'leaf'
+        except Exception:
+            opnd = 'unbuildable'
+    return '%s:%s:%s:%s' % (kind, k, opnd, 'complex' if ctx.cplx else 'real')
+
+
+def replay_tree(frozen, cplx, xs):
+    """Used by replay snippets: rebuild the tree and evaluate the oracle on it."""
+    import random
+    ctx = Ctx(random.Random(0), cplx)
+    t = thaw(ctx, frozen)
+    res = oracle_node(ctx, t, xs)
+    return res is None, res, None
+
+
+def _tree_probe(ctx, t, xs, what):
+    f = oracle_min(ctx, t, xs)
+    if f is None:
+        return C.Probe(True, 'tree', what)
+    ft, fxs, res = f
+    key = _key(ctx, ft, res)
+    rp = ("import sys\nsys.path.insert(0, %r)\nfrom harness import c04 as H\n"
+          "ok, observed, expected = H.replay_tree(%r, %r, %r)\n" % (C.VERIF, freeze(ft), ctx.cplx, fxs))
+    return C.Probe(False, key, '%s: %s on %s' % (res[0], res[1], src_skeleton(ft)), rp,
+                   {'kind': res[0], 'detail': res[1], 'expr': src_skeleton(ft)})
+
+
+def _fixed_trees(ctx):
+    """Hand-written interaction patterns named in the property text."""
+    A = lambda want=None, d=2, r=2: ('leaf', make_leaf(ctx, d, r, want))
+    out = []
+    for want in ('lin', 'nonlin'):
+        a, b = ctx.num(small=True), ctx.num(small=True)
+        v = ctx.ivec(2)
+        out += [('mul', ('mulc', A(want), a), A()),                 # (A*a)*B
+                ('mulv', ('mulc', A(want), a), v),                  # (A*a)*v
+                ('cmul', ('mulc', A(want), b), a),                  # a*(A*b)
+                ('mulc', ('mulc', A(want), a), b),                  # (A*a)*b
+                ('mulc', ('mulc', ('mulc', A(want), a), b), a),
+                ('cmul', ('cmul', A(want), a), b),                  # b*(a*A)
+                ('mulc', ('cmul', A(want), a), b),                  # (a*A)*b
+                ('divc', ('mulc', A(want), a), 2),
+                ('mulc', ('divc', A(want), 4), a),
+                ('neg', ('neg', A(want))),
+                ('sub', ('mulc', A(want), a), ('cmul', A(want), b)),
+                ('pow', ('mulc', A(want), a), 3),
+                ('mulc', ('pow', A(want), 2), a),
+                ('vmul', ('mulc', A(want), a), v),
+                ('mulc', ('vmul', A(want), v), a),
+                ('mulc', ('mulv', A(want), v), a),
+                ('mulc', ('addv', A(want), v), a),
+                ('mulc', ('mul', A(want), A(want)), a),
+                ('mulc', ('add', A(want), A(want)), a),
+                ('mulc', A(want), 0), ('cmul', A(want), 0), ('divc', A(want), -0.5)]
+    for want in ('lin', 'func', None):
+        f = lambda: ('leaf', make_leaf(ctx, 2, 'F', want))
+        a, b = ctx.num(small=True), ctx.num(small=True)
+        v = ctx.ivec(2)
+        out += [('mulc', f(), 0), ('cmul', f(), 0), ('mulc', ('mulc', f(), a), 0), ('mulc', ('mulc', f(), a), b),
+                ('cmul', ('cmul', f(), a), b), ('mulc', ('cmul', f(), a), b), ('cmul', ('mulc', f(), a), b),
+                ('mul', ('mulc', f(), a), A()), ('mulv', ('mulc', f(), a), v), ('mulc', ('mulv', f(), v), a),
+                ('vmul', ('mulc', f(), a), v), ('mulc', ('vmul', f(), v), a), ('addc', ('mulc', f(), a), b),
+                ('csub', ('mulc', f(), a), b), ('subc', f(), 0), ('add', f(), f()), ('sub', f(), f()),
+                ('add', ('add', f(), f()), ('addc', f(), a)), ('neg', f()), ('divc', f(), 2),
+                ('mul', f(), ('mulc', A('nonlin'), a)), ('mulc', ('mul', f(), A()), a),
+                ('add', f(), ('const', 2, a)), ('add', ('const', 2, a), ('zerof', 2)),
+                ('mulc', ('const', 2, a), b), ('cmul', ('zerof', 2), b), ('mulc', ('zerof', 2), 0)]
+    return out
+
+
+def _registry():
+    """(name, constructor thunk) of odl classes that report is_linear, for the premise
+    'flagged linear => (A*a)(x) == A(a*x) for every scalar a of the domain field'."""
+    import numpy as np
+    import odl
+    r3, c3 = odl.rn(3), odl.cn(3)
+    d1 = odl.uniform_discr(0, 1, 4)
+    d2 = odl.uniform_discr([0, 0], [1, 1], [3, 4])
+    dc = odl.uniform_discr(0, 1, 4, dtype=complex)
+    p2 = odl.ProductSpace(r3, 2)
+    M = np.array([[1., 2, 0], [0, 1, -1]])
+    reg = [
+        ('IdentityOperator/rn', lambda: odl.IdentityOperator(r3)),
+        ('IdentityOperator/cn', lambda: odl.IdentityOperator(c3)),
+        ('ScalingOperator/rn', lambda: odl.ScalingOperator(r3, 2.0)),
+        ('ScalingOperator/cn', lambda: odl.ScalingOperator(c3, 2.0 + 1j)),
+        ('ZeroOperator/rn', lambda: odl.ZeroOperator(r3)),
+        ('MultiplyOperator/rn', lambda: odl.MultiplyOperator(r3.element([1, 2, 3]))),
+        ('MultiplyOperator/cn', lambda: odl.MultiplyOperator(c3.element([1, 2j, 3]))),
+        ('MultiplyOperator/scalar-on-rn', lambda: odl.MultiplyOperator(2.0, domain=r3)),
+        ('MatrixOperator/rn', lambda: odl.MatrixOperator(M)),
+        ('MatrixOperator/cn', lambda: odl.MatrixOperator(M.astype(complex) * (1 + 1j))),
+        ('InnerProductOperator/rn', lambda: odl.InnerProductOperator(r3.element([1, 2, 3]))),
+        ('InnerProductOperator/cn', lambda: odl.InnerProductOperator(c3.element([1, 2j, 3]))),
+        ('LinCombOperator/rn', lambda: odl.LinCombOperator(r3, 2.0, -1.0)),
+        ('RealPart/rn', lambda: odl.RealPart(r3)),
+        ('RealPart/cn', lambda: odl.RealPart(c3)),
+        ('ImagPart/cn', lambda: odl.ImagPart(c3)),
+        ('ComplexEmbedding/rn', lambda: odl.ComplexEmbedding(r3)),
+        ('ComplexEmbedding/cn', lambda: odl.ComplexEmbedding(c3, scalar=1j)),
+        ('ComponentProjection', lambda: odl.ComponentProjection(p2, 0)),
+        ('ComponentEmbedding', lambda: odl.ComponentEmbedding(p2, 1)),
+        ('BroadcastOperator', lambda: odl.BroadcastOperator(odl.IdentityOperator(r3), odl.ScalingOperator(r3, 2))),
+        ('ReductionOperator', lambda: odl.ReductionOperator(odl.IdentityOperator(r3), odl.ScalingOperator(r3, 2))),
+        ('DiagonalOperator', lambda: odl.DiagonalOperator(odl.IdentityOperator(r3), odl.ScalingOperator(r3, 2))),
+        ('PartialDerivative/pad0', lambda: odl.PartialDerivative(d1, 0)),
+        ('PartialDerivative/pad_const=1', lambda: odl.PartialDerivative(d1, 0, pad_mode='constant', pad_const=1.0)),
+        ('Gradient/pad0', lambda: odl.Gradient(d2)),
+        ('Gradient/pad_const=1', lambda: odl.Gradient(d2, pad_mode='constant', pad_const=1.0)),
+        ('Divergence/pad0', lambda: odl.Divergence(range=d2)),
+        ('Divergence/pad_const=1', lambda: odl.Divergence(range=d2, pad_mode='constant', pad_const=1.0)),
+        ('Laplacian/pad0', lambda: odl.Laplacian(d2)),
+        ('Laplacian/pad_const=1', lambda: odl.Laplacian(d2, pad_mode='constant', pad_const=1.0)),
+        ('ResizingOperator', lambda: odl.ResizingOperator(d1, ran_shp=(6,))),
+        ('ResizingOperator/pad_const=1', lambda: odl.ResizingOperator(d1, ran_shp=(6,), pad_mode='constant', pad_const=1.0)),
+        ('PointwiseInner', lambda: odl.PointwiseInner(odl.ProductSpace(d1, 2), odl.ProductSpace(d1, 2).one())),
+        ('PointwiseSum', lambda: odl.PointwiseSum(odl.ProductSpace(d1, 2))),
+        ('SamplingOperator', lambda: odl.SamplingOperator(d1, [[0, 2]])),
+        ('FlatteningOperator', lambda: odl.FlatteningOperator(d2)),
+        ('FourierTransform', lambda: odl.trafos.FourierTransform(dc, impl='numpy')),
+        ('DiscreteFourierTransform', lambda: odl.trafos.DiscreteFourierTransform(c3, impl='numpy')),
+        ('ZeroFunctional', lambda: odl.solvers.ZeroFunctional(r3)),
+        ('IdentityFunctional', lambda: odl.solvers.IdentityFunctional(odl.RealNumbers())),
+        ('ScalingFunctional', lambda: odl.solvers.ScalingFunctional(odl.RealNumbers(), 3.0)),
+    ]
+    return reg
+
+
+_HOMOG_SNIPPET = r"""
+import sys, numpy as np, odl
+sys.path.insert(0, %r)
+from harness import c04 as H
+op = dict(H._registry())[%r]()
+ok, observed, expected = H.homog_check(op, %r)
+"""
+
+
+def _rand_el(sp, seed):
+    import numpy as np
+    import odl
+    rs = np.random.RandomState(seed)
+    if isinstance(sp, odl.set.sets.Field):
+        return float(rs.randint(-3, 4))
+    if isinstance(sp, odl.ProductSpace):
+        return sp.element([_rand_el(s, seed + 1 + i) for i, s in enumerate(sp)])
+    a = rs.randint(-3, 4, size=sp.shape).astype(float)
+    if not getattr(sp, 'is_real', True):
+        a = a + 1j * rs.randint(-2, 3, size=sp.shape)
+    return sp.element(a)
+
+
+def _as_np(y):
+    import numpy as np
+    import odl
+    if isinstance(y, odl.set.space.LinearSpaceElement) and isinstance(y.space, odl.ProductSpace):
+        return np.concatenate([_as_np(p) for p in y])
+    return np.asarray(y).ravel()
+
+
+def homog_check(op, a):
+    """(op * a)(x) == op(a * x) on the real object (the table entry for right scalar multiplication)."""
+    import numpy as np
+    x = _rand_el(op.domain, 3)
+    expected = _as_np(op(a * x))
+    try:
+        observed = _as_np((op * a)(x))
+    except Exception as e:   # noqa
+        return False, '%s: %s' % (type(e).__name__, str(e)[:100]), expected.tolist()
+    ok = bool(np.allclose(observed, expected, rtol=1e-12, atol=1e-12))
+    return ok, observed.tolist(), expected.tolist()
+
+
 def probes(rng, tier):
-    return []
+    import odl
+    out = []
+    # 1. reference-interpreter oracle on random trees, deeper than the correspondence, both fields
+    n = 250 if tier == 'quick' else 1500
+    maxd = 5 if tier == 'quick' else 8
+    for i in range(n):
+        ctx = Ctx(rng, cplx=(i % 3 == 2))
+        ran = rng.choice(DIMS + ['F', 'F'])
+        d = rng.choice(DIMS)
+        t = gen(ctx, rng.randint(1, maxd), d, ran, p_bad=0.04)
+        xs = [ctx.ivec(d, -2, 2) for _ in range(2)]
+        out.append(_tree_probe(ctx, t, xs, 'random tree vs reference interpreter of the table'))
+    # 2. the interaction patterns named in the property, linear and nonlinear operands, both fields
+    for cplx in (False, True):
+        for rep in range(1 if tier == 'quick' else 4):
+            ctx = Ctx(rng, cplx)
+            for t in _fixed_trees(ctx):
+                xs = [ctx.ivec(2, -2, 2) for _ in range(2)]
+                out.append(_tree_probe(ctx, t, xs, 'fixed interaction pattern vs reference interpreter'))
+    # 3. the premise of the A*a -> a*A rewrite on odl's own classes
+    for name, mk in _registry():
+        try:
+            op = mk()
+        except Exception as e:   # noqa
+            out.append(C.Probe(True, 'registry-skip:' + name, 'constructor unavailable: %s' % type(e).__name__))
+            continue
+        scalars = [2.0, -0.5]
+        fld = getattr(op.domain, 'field', op.domain)
+        if fld == odl.ComplexNumbers():
+            scalars += [1j, 1 - 2j]
+        for a in scalars:
+            ok, obs, exp = homog_check(op, a)
+            kind = 'complex-scalar' if isinstance(a, complex) else 'real-scalar'
+            key = 'right-scalar-mult:%s:%s:%s' % (name, 'linear' if op.is_linear else 'nonlinear', kind)
+            out.append(C.Probe(ok, key, '(%s * %r)(x) == A(%r * x)' % (name, a, a),
+                               _HOMOG_SNIPPET % (C.VERIF, name, a), {'observed': obs, 'expected': exp}))
+    return out
 
 
 LEVEL_TEXT = ''
